@@ -139,8 +139,8 @@ func (fs faultsim) runFaulted(c *Case, dir string, target int, plan *sim.FaultPl
 				go func() { defer close(done); e.RunStep(i, st) }()
 				select {
 				case <-done:
-				case <-time.After(8 * time.Second):
-					fail("next-step-blocked", "the step after the failed commit did not finish within 8s (after %s)", disk.Fired)
+				case <-time.After(25 * time.Second):
+					fail("next-step-blocked", "the step after the failed commit did not finish within 25s (after %s)", disk.Fired)
 					buf := make([]byte, 1<<17)
 					out.Trace = append(out.Trace, string(buf[:runtime.Stack(buf, true)]))
 					tagF6(e.Viol)
@@ -213,7 +213,7 @@ func (fs faultsim) runFaulted(c *Case, dir string, target int, plan *sim.FaultPl
 				if berr != nil && !errors.Is(berr, berrors.ErrInvalidMapping) {
 					fail("begin-after-fault", "Begin(true) after %s: %v", disk.Fired, berr)
 				}
-			case <-time.After(3 * time.Second):
+			case <-time.After(12 * time.Second):
 				fail("writer-blocked", "after %s (commit returned %v) the next Begin(true) does not return: the writer lock was not released", disk.Fired, faultErr)
 				e.DB = nil // leak: its locks are held
 			}
